@@ -55,5 +55,11 @@ def build(repo, tier):
         u.info['lib_exclude'] = tuple(PY_SIDE)          # python-side list lemmas only multiply instances in the checker-side proofs
     units += rs_units
     fns += [(RFILE, f) for f in ('instantiate_internal', 'apply_esubst', 'apply_ssubst', 'execute_instructions (arms Instantiate, ESubst, SSubst)')]
-    return PropSpec('C11', units, lib, targets, trusted=TRUSTED_ENGINE + ['rust front end /verif/vc/rsparse.py + rsfe.py; reflection of e_fresh/s_fresh/positive/negative (vc/reflect.py)'],
+    spec = PropSpec('C11', units, lib, targets, trusted=TRUSTED_ENGINE + ['rust front end /verif/vc/rsparse.py + rsfe.py; reflection of e_fresh/s_fresh/positive/negative (vc/reflect.py)'],
                     assumptions=PY_ASSUMPTIONS + RS_ASSUMPTIONS, functions=fns)
+    from .c05 import step_replayer
+    from contracts.rust_subst import rs_fn_replayer
+    spec.lemma_replayers['C11/rs/step/'] = step_replayer
+    for _fn in ('apply_esubst', 'apply_ssubst', 'instantiate_internal'):
+        spec.lemma_replayers['C11/rs/' + _fn + '/'] = rs_fn_replayer
+    return spec
